@@ -4,14 +4,12 @@ go 1.26.0
 
 require (
 	go.sia.tech/core v0.0.0
+	golang.org/x/crypto v0.55.0
 	golang.org/x/sys v0.47.0
 	lukechampine.com/frand v1.5.1
 	pgregory.net/rapid v1.3.0
 )
 
-require (
-	go.sia.tech/mux v1.5.3 // indirect
-	golang.org/x/crypto v0.55.0 // indirect
-)
+require go.sia.tech/mux v1.5.3 // indirect
 
 replace go.sia.tech/core => /repo
